@@ -230,6 +230,36 @@ func Vals(key uint16, shape, n int, seed uint64) []uint32 {
 			}
 			out = append(out, k<<16|l)
 		}
+	case 8: // break-even between the array and the run encoding: a few long consecutive
+		// stretches plus isolated values, so that the value count N and the run count k satisfy
+		// N - 2k in {-1,0,1,2} (array: 2N bytes, runs: 2+4k bytes); n selects nothing here
+		ns := 1 + r.Intn(4)
+		sum := 0
+		var items []int // stretch lengths; 1 = an isolated value
+		for i := 0; i < ns; i++ {
+			l := []int{8, 9, 15, 16, 17, 18, 27, 32, 33, 48}[r.Intn(10)]
+			items = append(items, l)
+			sum += l
+		}
+		m := sum - 2*ns - (r.Intn(4) - 1)
+		for i := 0; i < m; i++ {
+			items = append(items, 1)
+		}
+		for i := len(items) - 1; i > 0; i-- {
+			j := r.Intn(i + 1)
+			items[i], items[j] = items[j], items[i]
+		}
+		pos := uint32(r.Intn(3000))
+		if r.Chance(1, 4) {
+			pos = 0
+		}
+		for _, l := range items {
+			for j := 0; j < l && pos <= 65535; j++ {
+				out = append(out, base|pos)
+				pos++
+			}
+			pos += uint32(1 + r.Intn(9)) // a gap of at least one absent value
+		}
 	case 5: // top of the chunk downwards
 		for i := 0; i < n && i < 65536; i++ {
 			out = append(out, base|uint32(65535-i))
